@@ -74,7 +74,8 @@ def Walk.isClean : Walk → Bool
   | .clean _ => true
   | .broken _ _ => false
 
-def nm (s : String) : Bytes := s.toUTF8.toList
+/-- a FourCC from four characters (kernel-evaluable, unlike `String.toUTF8`) -/
+def cc (a b c d : Char) : Bytes := [a.toNat.toUInt8, b.toNat.toUInt8, c.toNat.toUInt8, d.toNat.toUInt8]
 
 /-- a chunk-offset table: absolute offset of the first entry, entry width, entry count -/
 structure Region where
@@ -107,14 +108,14 @@ def only (name : Bytes) (bs : List TopBox) : Option TopBox :=
 /-- the chunk-offset table of one trak: exactly one mdia > minf > stbl chain with exactly one stco xor co64 -/
 def trakTable (s : Stream) (trak : TopBox) : Option Region := do
   let c1 ← children s trak
-  let mdia ← only (nm "mdia") c1
+  let mdia ← only (cc 'm' 'd' 'i' 'a') c1
   let c2 ← children s mdia
-  let minf ← only (nm "minf") c2
+  let minf ← only (cc 'm' 'i' 'n' 'f') c2
   let c3 ← children s minf
-  let stbl ← only (nm "stbl") c3
+  let stbl ← only (cc 's' 't' 'b' 'l') c3
   let c4 ← children s stbl
-  let stcos := c4.filter (·.name = nm "stco")
-  let co64s := c4.filter (·.name = nm "co64")
+  let stcos := c4.filter (·.name = (cc 's' 't' 'c' 'o'))
+  let co64s := c4.filter (·.name = (cc 'c' 'o' '6' '4'))
   match stcos, co64s with
   | [b], [] => tableOf s b 4
   | [], [b] => tableOf s b 8
@@ -124,7 +125,7 @@ def trakTable (s : Stream) (trak : TopBox) : Option Region := do
     (children not clean, no trak, or some trak without a unique well-formed table) -/
 def moovTables (s : Stream) (moov : TopBox) : Option (List Region) := do
   let cs ← children s moov
-  let traks := cs.filter (·.name = nm "trak")
+  let traks := cs.filter (·.name = (cc 't' 'r' 'a' 'k'))
   if traks.isEmpty then none else traks.mapM (trakTable s)
 
 def entryAt (s : Stream) (r : Region) (i : Nat) : Nat := be s (r.off + r.width * i) r.width
